@@ -19,7 +19,7 @@ EXPLANATION = (
     'operations never graft the operand\'s sub-tries by reference; (f) the '
     'dict-to-list density test is two sided.  The round-trip and set-algebra '
     'laws over all keys are value-level and not decided.')
-FLOORS = {'C10.a': 1, 'C10.b': 2, 'C10.c': 1, 'C10.d': 1, 'C10.e': 1, 'C10.f': 1, 'C10.g': 2}
+FLOORS = {'C10.a': 1, 'C10.b': 2, 'C10.c': 1, 'C10.d': 1, 'C10.e': 1, 'C10.f': 1, 'C10.g': 2, 'C10.h': 2}
 FILES = ['pyglove/core/utils/value_location.py', 'pyglove/core/utils/hierarchical.py',
          'pyglove/core/symbolic/base.py']
 VL = 'pyglove.core.utils.value_location.'
@@ -470,6 +470,37 @@ def rule_g(ctx):
          f.loc, '; '.join(problems))
 
 
+def rule_h(ctx):
+  """Prefix test and relative subtraction are "consistent with the key
+  sequences": they are computed on the keys, position by position - never on
+  the printed path (`'model.layer10'.startswith('model.layer1')`)."""
+  idx = ctx.index
+  for name in ('is_relative_to', '__sub__'):
+    f = idx.func(VL + 'KeyPath.' + name)
+    bad = []
+    for n in ast.walk(f.node):
+      if isinstance(n, ast.Attribute) and n.attr in ('path', '_path_str', 'path_str') and not isinstance(getattr(n, 'ctx', None), ast.Store):
+        # reading the printed form to DECIDE (messages of raised errors may quote paths)
+        if not _inside_raise(f.node, n):
+          bad.append(f'line {n.lineno}: reads `{A.unparse(n, 40)}`')
+      if isinstance(n, ast.Call) and isinstance(n.func, ast.Attribute) and n.func.attr in ('startswith', 'endswith', 'find', 'index') \
+          and not _inside_raise(f.node, n):
+        bad.append(f'line {n.lineno}: `{A.unparse(n, 50)}` is a string operation')
+      if isinstance(n, ast.Call) and A.call_name(n) in ('str', 'repr') and not _inside_raise(f.node, n):
+        bad.append(f'line {n.lineno}: `{A.unparse(n, 50)}`')
+    reads_keys = any(isinstance(n, ast.Attribute) and n.attr in ('keys', '_keys') for n in ast.walk(f.node))
+    ctx.ob('C10.h', f.fq, reads_keys and not bad,
+           f'{name} is computed on the key sequences, not on the printed path', f.loc,
+           '; '.join(bad) or 'the keys are not consulted')
+
+
+def _inside_raise(fn, node):
+  for r in ast.walk(fn):
+    if isinstance(r, ast.Raise) and any(x is node for x in ast.walk(r)):
+      return True
+  return False
+
+
 def run(ctx):
   ctx.consult(*FILES)
   rule_a(ctx)
@@ -479,4 +510,5 @@ def run(ctx):
   rule_e(ctx)
   rule_f(ctx)
   rule_g(ctx)
+  rule_h(ctx)
   ctx.assume('round-trip over all key strings, KeyPathSet algebra and flatten/canonicalize inverse laws are value-level')
